@@ -528,13 +528,20 @@ let op_udp opidx (_impl : string list option) toks =
   List.iteri (fun k tok ->
       match String.split_on_char ':' tok with
       | [ t; ip; port; _pkt ] ->
-          (match String.split_on_char '.' ip with
+          let v6 = String.length ip = 35 && String.sub ip 0 3 = "v6-" in
+          (match (if v6 then [] else String.split_on_char '.' ip) with
+           | [] when v6 && String.sub ip 3 16 = "20010db800000000" ->
+               (* the second host entry of the block: 2001:db8::/64 *)
+               let addr = bytes_of_hex (String.sub ip 3 32) in
+               let (l', id), next' = udp_arrival !tbl !next addr (n_of_int (int_of_string port)) (z_of_int (int_of_string t)) in
+               tbl := l'; next := next';
+               pr "obs %d udp %d client=%d created=0 live=%d\n" opidx k (int_of_nat id) (List.length l')
            | [ a; b; c; d ] when int_of_string a = 10 && int_of_string b = 0 && int_of_string c = 0 ->
                let addr = List.map (fun x -> n_of_int (int_of_string x)) [ a; b; c; d ] in
                let (l', id), next' = udp_arrival !tbl !next addr (n_of_int (int_of_string port)) (z_of_int (int_of_string t)) in
                tbl := l'; next := next';
                pr "obs %d udp %d client=%d created=0 live=%d\n" opidx k (int_of_nat id) (List.length l')
-           | _ -> pr "obs %d udp %d dropped\n" opidx k)   (* the client block of the generated cases is 10.0.0.0/24 *)
+           | _ -> pr "obs %d udp %d dropped\n" opidx k)   (* the client block of the generated cases is 10.0.0.0/24 and 2001:db8::/64 *)
       | _ -> ()) toks
 
 let run (opidx : int) (impl : string list option) (toks : string list) : bool =
